@@ -614,3 +614,22 @@ pub fn ref_of_changes(changes: &[automerge::Change], enc: TextEncoding) -> RefDo
 
 #[allow(dead_code)]
 fn _unused(_: OText) {}
+
+impl RefDoc {
+    /// true if any map key or list element of ANY object (reachable or not) has a visible string
+    pub fn any_visible_string_in_maps_or_lists(&self) -> bool {
+        for (i, o) in self.ops.iter().enumerate() {
+            if !matches!(o.act, Act::Put(ScalarValue::Str(_))) || !self.visible(i) {
+                continue;
+            }
+            let ty = match &o.obj {
+                None => Some(ObjType::Map),
+                Some(id) => self.obj_type(id),
+            };
+            if matches!(ty, Some(ObjType::Map) | Some(ObjType::List)) {
+                return true;
+            }
+        }
+        false
+    }
+}
